@@ -3,9 +3,11 @@ RACE_ENV = {"VERIF_RACEMODE": "1"}
 CFG = {
     "C18": {
         "passes": [
-            {"prop": "C18", "share": 0.4, "name": "dense"},
-            {"prop": "C18", "share": 0.3, "name": "free-race-server", "race": True, "env": RACE_ENV, "workers": 8},
-            {"prop": "C14", "share": 0.3, "name": "free-race-e2e", "race": True, "env": RACE_ENV, "workers": 8},
+            {"prop": "C18", "share": 0.3, "name": "dense"},
+            {"prop": "C12", "share": 0.1, "name": "client-transactions"},
+            {"prop": "C13", "share": 0.1, "name": "client-relay-socket"},
+            {"prop": "C18", "share": 0.25, "name": "free-race-server", "race": True, "env": RACE_ENV, "workers": 8},
+            {"prop": "C14", "share": 0.25, "name": "free-race-e2e", "race": True, "env": RACE_ENV, "workers": 8},
         ],
         "evidence": {"race_detector": "passes 2 and 3 run UDP-listener server-world plans (scripted clients; real client + real server) on a -race build in "
                      "free-running mode: no scheduler steps, no harness locks or counters on library paths, timers as the only network, GOMAXPROCS 4; "
